@@ -226,6 +226,10 @@ class FnExec:
                     i = fresh_int("in"); z = z3.Exists([i], z3.And(0 <= i, i < t.len(right.z), t.at(right.z, i) == left.z))
                 else: raise Unsupported(f"`in` on {t!r}")
                 res.append(z if o == "In" else z3.Not(z))
+            elif isinstance(left.t, NoneT) or isinstance(right.t, NoneT):
+                # None is modelled as the only value of its type; values of every other declared type are never None
+                same = isinstance(left.t, NoneT) and isinstance(right.t, NoneT)
+                res.append(z3.BoolVal(same if o in ("Is", "Eq") else not same))
             else:
                 az, bz = left.z, right.z
                 if isinstance(left.t, IntT) and isinstance(right.t, RealT): az = z3.ToReal(az)
@@ -572,9 +576,12 @@ class FnExec:
         v = self.expr(ast.BinOp(left=load, op=s.op, right=s.value, lineno=s.lineno), st, pc)
         self.assign(s.target, v, st, pc); return [Outcome("normal", st, pc)]
     def s_If(self, s, st, pc):
-        c = self.expr(s.test, st, pc)
-        outs = self.block(s.body, st.copy(), pc + [c.z])
-        outs += self.block(s.orelse, st.copy(), pc + [z3.Not(c.z)]) if s.orelse else [Outcome("normal", st.copy(), pc + [z3.Not(c.z)])]
+        c = self.expr(s.test, st, pc); cz = z3.simplify(c.z) if isinstance(c.t, BoolT) else c.z
+        if isinstance(c.t, IntT): cz = c.z != 0
+        outs = []
+        if not z3.is_false(cz): outs += self.block(s.body, st.copy(), pc + [cz])          # a branch whose guard is literally False is dead code
+        if not z3.is_true(cz):
+            outs += self.block(s.orelse, st.copy(), pc + [z3.Not(cz)]) if s.orelse else [Outcome("normal", st.copy(), pc + [z3.Not(cz)])]
         return outs
     def s_Try(self, s, st, pc):
         outs = []
